@@ -653,9 +653,9 @@ def _place_faults(r, steps, cfg):
                     lst.insert(lst.index(s) + 1, again)
         if s["op"] in seam_ops_all() and s["op"] != "sc.foreign_ctx" and r.random() < 0.3:
             # a user-supplied callable (solver / input signal / mapper / dump function) raises in mid-analysis
-            s["fault"] = {"kind": "seam-raise", "at": r.choice([0, 0, 1, 2]), "exc": r.choice(["interrupt", "key", "type", "os", "memory", "linalg"])}
+            s["fault"] = {"kind": "seam-raise", "at": r.choice([0, 0, 1, 2]), "exc": r.choice(["interrupt", "memory", "callback", "callback"])}
             continue
-        s["fault"] = {"kind": "interrupt", "k": interrupt_k(r, s), "exc": r.choice(["interrupt", "interrupt", "interrupt", "memory", "key", "type", "os", "linalg"])}
+        s["fault"] = {"kind": "interrupt", "k": interrupt_k(r, s), "exc": r.choice(["interrupt", "interrupt", "memory"])}
 
 
 def _kind_key(s):
